@@ -25,6 +25,9 @@ VARIABLES
   deps,       \* deps[v]: set of ids v depends on (the code's Children)
   retries,    \* retries[v]
   gerrs,      \* number of definition errors recorded so far
+  dot,        \* the dot diagram: sequence of <<"v", id>> and <<"e", from, to>> entries in declaration order
+  tmKnown,    \* TaskMap: ids added
+  tmErrs,     \* TaskMap: number of errors recorded (duplicate Add, Get of an unknown id)
   limit,      \* SetMaxParallel
   serial,     \* SetSerial
   buffered,   \* SetOutputBuffer
@@ -52,7 +55,7 @@ VARIABLES
   exited,     \* task exits so far, in order
   launched    \* number of `launch run` events after the cancellation was observed
 
-gvars == <<verts, deps, retries, gerrs, limit, serial, buffered>>
+gvars == <<verts, deps, retries, gerrs, dot, tmKnown, tmErrs, limit, serial, buffered>>
 rvars == <<status, errs, handled, cancelled, w, msgs, att, last, sem, lockBusy, result, buf, wlog,
            retnil, failed, spd, wk, sk, exited, launched>>
 vars == <<gvars, phase, rvars>>
@@ -78,6 +81,7 @@ TransDependents(vs, d, v) == UpFrom(vs, d, {v}, {})
 (* Construction.  A history is any sequence of these calls.                *)
 EmptyGraph ==
   /\ verts = {} /\ deps = [t \in Tasks |-> {}] /\ retries = [t \in Tasks |-> 0] /\ gerrs = 0
+  /\ dot = <<>> /\ tmKnown = {} /\ tmErrs = 0
 
 RunInit ==   \* values of the run variables before Run starts
   /\ status = [t \in Tasks |-> "pending"] /\ errs = {} /\ handled = FALSE /\ cancelled = FALSE
@@ -90,6 +94,7 @@ RunInit ==   \* values of the run variables before Run starts
 \* the same, as next-state assignments (a trace file holds many runs)
 ResetAll ==
   /\ verts' = {} /\ deps' = [t \in Tasks |-> {}] /\ retries' = [t \in Tasks |-> 0] /\ gerrs' = 0
+  /\ dot' = <<>> /\ tmKnown' = {} /\ tmErrs' = 0
   /\ status' = [t \in Tasks |-> "pending"] /\ errs' = {} /\ handled' = FALSE /\ cancelled' = FALSE
   /\ w' = [t \in Tasks |-> "none"] /\ msgs' = [t \in Tasks |-> <<>>] /\ att' = [t \in Tasks |-> 0]
   /\ last' = [t \in Tasks |-> "none"] /\ sem' = 0 /\ lockBusy' = [t \in Tasks |-> FALSE]
@@ -98,10 +103,13 @@ ResetAll ==
   /\ launched' = 0
 
 \* AddTask: a new id creates a vertex; re-adding a known id keeps the vertex and its edges
+NewV(vs, t) == IF t \in vs THEN <<>> ELSE <<<<"v", t>>>>   \* dot entry of a vertex created now
+
 AddTask(t) ==
   /\ phase = "build"
   /\ verts' = verts \cup {t}
-  /\ UNCHANGED <<deps, retries, gerrs, limit, serial, buffered, phase, rvars>>
+  /\ dot' = dot \o NewV(verts, t)
+  /\ UNCHANGED <<deps, retries, gerrs, tmKnown, tmErrs, limit, serial, buffered, phase, rvars>>
 
 \* TaskDependsOn(t, d): both vertices are created on demand; a duplicate edge is a definition error
 DependsOn(t, d) ==
@@ -109,34 +117,57 @@ DependsOn(t, d) ==
   /\ verts' = verts \cup {t, d}
   /\ IF d \in deps[t] THEN gerrs' = gerrs + 1 /\ deps' = deps
      ELSE gerrs' = gerrs /\ deps' = [deps EXCEPT ![t] = @ \cup {d}]
-  /\ UNCHANGED <<retries, limit, serial, buffered, phase, rvars>>
+  /\ dot' = dot \o NewV(verts, t) \o NewV(verts \cup {t}, d) \o (IF d \in deps[t] THEN <<>> ELSE <<<<"e", t, d>>>>)
+  /\ UNCHANGED <<retries, tmKnown, tmErrs, limit, serial, buffered, phase, rvars>>
 
 \* TaskDependsOn(t, d1, d2, ...): the dependencies are processed in order; the first duplicate edge records a
 \* definition error and ends the call (later dependencies of the same call are not even created)
 RECURSIVE DepFold(_, _, _)
-DepFold(t, ds, acc) ==   \* acc: [verts, deps, gerrs]
+DepFold(t, ds, acc) ==   \* acc: [verts, deps, gerrs, dot]
   IF ds = <<>> THEN acc
   ELSE LET d == Head(ds) IN
        IF d \in acc.deps[t]
-       THEN [verts |-> acc.verts \cup {d}, deps |-> acc.deps, gerrs |-> acc.gerrs + 1]
-       ELSE DepFold(t, Tail(ds), [verts |-> acc.verts \cup {d}, deps |-> [acc.deps EXCEPT ![t] = @ \cup {d}], gerrs |-> acc.gerrs])
+       THEN [verts |-> acc.verts \cup {d}, deps |-> acc.deps, gerrs |-> acc.gerrs + 1, dot |-> acc.dot \o NewV(acc.verts, d)]
+       ELSE DepFold(t, Tail(ds), [verts |-> acc.verts \cup {d}, deps |-> [acc.deps EXCEPT ![t] = @ \cup {d}], gerrs |-> acc.gerrs,
+                                  dot |-> acc.dot \o NewV(acc.verts, d) \o <<<<"e", t, d>>>>])
 DependsOnSeq(t, ds) ==
   /\ phase = "build"
-  /\ LET r == DepFold(t, ds, [verts |-> verts \cup {t}, deps |-> deps, gerrs |-> gerrs]) IN
-       verts' = r.verts /\ deps' = r.deps /\ gerrs' = r.gerrs
-  /\ UNCHANGED <<retries, limit, serial, buffered, phase, rvars>>
+  /\ LET r == DepFold(t, ds, [verts |-> verts \cup {t}, deps |-> deps, gerrs |-> gerrs, dot |-> dot \o NewV(verts, t)]) IN
+       verts' = r.verts /\ deps' = r.deps /\ gerrs' = r.gerrs /\ dot' = r.dot
+  /\ UNCHANGED <<retries, tmKnown, tmErrs, limit, serial, buffered, phase, rvars>>
 
 SetRetries(t, r) ==
   /\ phase = "build"
   /\ verts' = verts \cup {t}
   /\ retries' = [retries EXCEPT ![t] = r]
-  /\ UNCHANGED <<deps, gerrs, limit, serial, buffered, phase, rvars>>
+  /\ dot' = dot \o NewV(verts, t)
+  /\ UNCHANGED <<deps, gerrs, tmKnown, tmErrs, limit, serial, buffered, phase, rvars>>
 
 \* Graph.Task(id) on an unknown id (or AddTask(nil) ...): one more definition error
 DefError ==
   /\ phase = "build"
   /\ gerrs' = gerrs + 1
-  /\ UNCHANGED <<verts, deps, retries, limit, serial, buffered, phase, rvars>>
+  /\ UNCHANGED <<verts, deps, retries, dot, tmKnown, tmErrs, limit, serial, buffered, phase, rvars>>
+
+\* TaskMap.Add: a duplicate id is an error (the task is replaced all the same); TaskMap.Get of an unknown id is an error
+TmAdd(t) ==
+  /\ phase = "build"
+  /\ tmKnown' = tmKnown \cup {t}
+  /\ tmErrs' = IF t \in tmKnown THEN tmErrs + 1 ELSE tmErrs
+  /\ UNCHANGED <<verts, deps, retries, gerrs, dot, limit, serial, buffered, phase, rvars>>
+TmGetUnknown ==
+  /\ phase = "build"
+  /\ tmErrs' = tmErrs + 1
+  /\ UNCHANGED <<verts, deps, retries, gerrs, dot, tmKnown, limit, serial, buffered, phase, rvars>>
+\* Graph.Validate(tm): TaskMap errors first, then the graph's definition errors
+ValidateResult == IF tmErrs > 0 THEN "taskmap" ELSE IF gerrs > 0 THEN "gerrs" ELSE "ok"
+
+(* the dot diagram names every vertex and every edge exactly once *)
+DotComplete ==
+  /\ {e[2] : e \in {dot[k] : k \in {j \in 1..Len(dot) : dot[j][1] = "v"}}} = verts
+  /\ Cardinality({k \in 1..Len(dot) : dot[k][1] = "v"}) = Cardinality(verts)
+  /\ {<<e[2], e[3]>> : e \in {dot[k] : k \in {j \in 1..Len(dot) : dot[j][1] = "e"}}} = {<<t, d>> \in Tasks \X Tasks : d \in deps[t]}
+  /\ \A a, b \in 1..Len(dot) : (a # b /\ dot[a][1] = "e") => dot[a] # dot[b]
 
 \* Run is called: definition errors, empty graph and cycles are answered at once
 StartRun ==
